@@ -1,10 +1,13 @@
 use crate::fw::Prop;
 pub mod c01;
+pub mod c03;
+pub mod c04;
 
 pub fn get(id: &str) -> Option<Box<dyn Prop>> {
   match id {
     "C01" => Some(Box::new(c01::C01)),
+    "C03" => Some(Box::new(c03::C03)),
+    "C04" => Some(Box::new(c04::C04)),
     _ => None,
   }
 }
-pub const ALL: [&str; 1] = ["C01"];
